@@ -347,6 +347,35 @@ def part_inconsistent(ctx, shard):
                     ctx.violation(f"C10|construct|slot={slot}|mode=consistent-system-rejected:{st}", case, "created", st)
             elif st != "IllDefinedUnitSystem":
                 ctx.violation(f"C10|construct|slot={slot}|mode=inconsistent-system-{st}", case, "IllDefinedUnitSystem", st)
+            else:
+                # a rejected system leaves no trace: its name resolves to nothing ...
+                if name in unit_system_registry:
+                    ctx.violation(f"C10|construct|slot={slot}|mode=rejected-system-is-registered", case, "absent", "registered")
+                try:
+                    r = unyt_quantity(2.0, "km/s").in_base(name)
+                    ctx.violation(f"C10|construct|slot={slot}|mode=rejected-system-usable-by-name", case, "raise", str(r))
+                except Exception:  # noqa: BLE001
+                    pass
+                # ... and a good system that already holds the name stays what it was
+                nm2 = f"held_{n}"
+                held = UnitSystem(nm2, "km", "g", "s")
+                before = str(unyt_quantity(2.0, "J").in_base(nm2))
+                ctx.count("evaluations")
+                args2 = dict(good)
+                args2[slot] = w
+                try:
+                    UnitSystem(nm2, args2.pop("length_unit"), args2.pop("mass_unit"), args2.pop("time_unit"), **args2)
+                    ctx.violation(f"C10|construct|slot={slot}|mode=inconsistent-system-created", case, "IllDefinedUnitSystem", "created")
+                except IllDefinedUnitSystem:
+                    pass
+                except Exception as e:  # noqa: BLE001
+                    ctx.violation(f"C10|construct|slot={slot}|mode=inconsistent-system-other:{type(e).__name__}", case, "IllDefinedUnitSystem", str(e)[:80])
+                try:
+                    after = str(unyt_quantity(2.0, "J").in_base(nm2))
+                except Exception as e:  # noqa: BLE001
+                    after = "raise:" + type(e).__name__
+                if unit_system_registry.get(nm2) is not held or after != before:
+                    ctx.violation(f"C10|construct|slot={slot}|mode=rejected-system-replaced-the-holder-of-its-name", case, before, after)
 
 
 # ---- explicit-state part ---------------------------------------------------------------------------------------------
